@@ -93,7 +93,9 @@ func directC06(c *Case, h *HistoryJ) []Finding {
 					continue
 				}
 				shape := "later-step"
-				if ev.Step == 0 && !(ci > 0 && infoAt(prev, p) != nil && inv[p] <= 1) {
+				if ev.Step == 0 && inv[p] > 1 {
+					shape = "reentered-in-same-call" // a later execution of a nested graph in the same call began with a restored task
+				} else if ev.Step == 0 && !(ci > 0 && infoAt(prev, p) != nil && inv[p] <= 1) {
 					shape = "start-successor" // step 0 of a run that starts from its input
 				} else if ev.Step == 0 {
 					shape = "restored-unlisted"
